@@ -326,8 +326,10 @@ def run(prop, tier):
             missing = [a for a in ALIASES if a not in sites]
             reversed_ = [a for a in ALIASES if (a[1], a[0]) in sites]
             res.notes["alias_sites"] = {"%s/%s" % k: v for k, v in sites.items()}
-            if missing or reversed_:
-                viol = {"what": "alias lookup sites missing for %r or with the short name taking precedence %r" % (missing, reversed_)}
+            # informational only (a syntactic scan says nothing about behaviour): every alias pair is exercised below by
+            # behaviour -- short spelling alone, and both spellings with conflicting values (the long one must win)
+            res.notes["alias_sites_not_recognised_syntactically"] = [list(a) for a in missing]
+            res.notes["alias_sites_reversed_syntactically"] = [list(a) for a in reversed_]
             for it in range(70 if quick else 800):
                 cs = gen_case(r, quick)
                 d, rate, w, ch = cs["data"], cs["rate"], cs["w"], cs["ch"]
@@ -389,6 +391,16 @@ def run(prop, tier):
                     runs["both spellings, long must win"] = [0, enc_regions(list(au.split(d, **both)))]
                 except Exception as e:
                     runs["both spellings, long must win"] = [1, exc_code(e)]
+                # the validator alias: val alone, and validator + val with conflicting values
+                try:
+                    from auditok.util import AudioEnergyValidator as _AEV
+                    good = _AEV(cs["eth"], w, ch, use_channel=cs["uc"])
+                    never = (lambda frame: False)
+                    base_kw = dict(base, analysis_window=cs["aw"], sampling_rate=rate, sample_width=w, channels=ch)
+                    runs["validator given as val"] = [0, enc_regions(list(au.split(d, val=good, **base_kw)))]
+                    runs["validator and val, long must win"] = [0, enc_regions(list(au.split(d, validator=good, val=never, **base_kw)))]
+                except Exception as e:
+                    runs["validator given as val"] = [1, exc_code(e)]
                 mc = model_case(cs)
                 for name, got in runs.items():
                     cases.append(mc); impl.append(got); meta.append({"container/spelling": name, **describe(cs)})
